@@ -80,7 +80,7 @@ ViewCalls ==
   \cup {Call("ReflectX", <<>>), Call("ReflectY", <<>>), Call("ResetView", <<>>)}
   \cup {Call("RotateAbout", <<1,2,1>>), Call("ReflectXAbout", <<3>>), Call("ReflectYAbout", <<2>>)}
   \cup (IF Profile = "small" THEN {} ELSE
-         {Call("Shear", <<1,0>>), Call("Shear", <<0,2>>), Call("ScaleAbout", <<2,3,1,1>>), Call("ShearAbout", <<1,1,2,0>>)}
+         {Call("Shear", <<1,0>>), Call("Shear", <<0,2>>), Call("ScaleAbout", <<2,3,1,1>>), Call("ShearAbout", <<1,2,2,0>>)}
          \cup {Call("SetView", m) : m \in Views} \cup {Call("ComposeView", m) : m \in Views})
 ViewMatrix(c) ==
   CASE c.op = "Translate"     -> MTr(c.a[1], c.a[2])
@@ -242,8 +242,9 @@ Sorted(zs) == IF zs = {} THEN <<>>
               ELSE LET k == Min(zs) IN SelectSeq(layers, LAMBDA l : l.z = k) \o Sorted(zs \ {k})
 RenderOrder == Sorted(ZSet)
 
-Small == /\ \A i \in 1..Len(layers) : MMaxAbs(layers[i].m) <= 4096
-         /\ MMaxAbs(view) <= 512
+\* views stay invertible: under a singular view a drawing collapses to a line or a point and "content" has no extent
+Small == /\ \A i \in 1..Len(layers) : MMaxAbs(layers[i].m) <= 4096 /\ MDet(layers[i].m) # 0
+         /\ MMaxAbs(view) <= 512 /\ MDet(view) # 0 /\ MDet(cview) # 0
 Scenario == [hist |-> hist, w0 |-> W0, h0 |-> H0, w |-> W, h |-> H,
              events |-> [i \in 1..Len(RenderOrder) |-> [kind |-> RenderOrder[i].kind, m |-> RenderOrder[i].m,
                                                        st |-> RenderOrder[i].st, step |-> RenderOrder[i].step, z |-> RenderOrder[i].z]]]
